@@ -21,6 +21,9 @@ OPLIB = {
     # two-input targets, both declaration orders
     't2': {'eqs': ["d/dt * v = -a*v + u - w"],
            'vars': {'v': 'output(0.15)', 'a': 1.2, 'u': 'input(0.7)', 'w': 'input(0.2)'}},
+    # inputs written directly next to `^` on either side (whole-identifier replacement when an input has several sources)
+    't2p': {'eqs': ["d/dt * v = -a*v + u^2 - 2^w + u*w^3"],
+            'vars': {'v': 'output(0.15)', 'a': 1.2, 'u': 'input(0.7)', 'w': 'input(0.2)'}},
     't2r': {'eqs': ["d/dt * v = -a*v + u - w"],
             'vars': {'v': 'output(0.15)', 'w': 'input(0.2)', 'a': 1.2, 'u': 'input(0.7)'}},
     # target whose state variable is called `weight`, input `u`
@@ -47,6 +50,8 @@ NODELIB = {
     'T1': [['t1', {}]],
     'T2': [['t2', {}]],
     'T2R': [['t2r', {}]],
+    'T2P': [['t2p', {}]],
+    'PPT2P': [['pu', {}], ['pu2', {}], ['t2p', {}]],
     'TW': [['tw', {}]],
     'TU': [['tu', {}]],
     'LT': [['lin', {}], ['t1', {}]],            # source and target operator in one node
